@@ -1041,11 +1041,7 @@ func (f *Frame) frameObls(cur, base *State, allowed map[string][]location, label
 		if idxSort(c.Sort) == SInt {
 			// only objects that already existed in the base state are visible to the environment:
 			// everything allocated since then (not in the base state's ghost set alloc) may differ
-			ab, ok := base.H["G.alloc"]
-			if !ok {
-				ab = vc.heapInit("G.alloc", ArrSort(SInt, SBool))
-			}
-			hyps = append(hyps, Select(ab, i))
+			hyps = append(hyps, vc.isAllocated(base, i))
 		}
 		vc.addObl(&Obligation{Name: fmt.Sprintf("frame[%s]%s", k, label), Kind: "frame", Goal: Eq(Select(c, i), Select(b, i)), Hyps: hyps, Guard: guard,
 			Src: "only locations listed in modifies (or freshly allocated) may differ in " + k, Where: where})
